@@ -55,8 +55,8 @@ pub const BIG: [usize; 14] = [35, 31, 33, 21, 17, 36, 3, 2, 35, 36, 35, 26, 42, 
 /// Menu of profile 5: plain (`Copy`) data only, every one of them allowed to stay uninitialised.
 pub const PLAIN: [usize; 16] = [0, 1, 2, 3, 5, 6, 8, 9, 10, 11, 15, 29, 30, 33, 37, 7];
 
-pub const NAME_POOL: [&str; 12] =
-    ["alpha", "beta", "gamma", "delta", "eps", "zeta", "count2", "is_ok", "the_value", "x_1", "kappa_mu", "n0"];
+pub const NAME_POOL: [&str; 13] =
+    ["alpha", "beta", "gamma", "delta", "eps", "zeta", "count2", "is_ok", "the_value", "x_1", "kappa_mu", "n0", "r#type"];
 
 /// Weighted menu: tokens and owned types are over-represented.
 pub const WEIGHTED: [usize; 81] = [
@@ -71,7 +71,7 @@ pub const WEIGHTED: [usize; 81] = [
 ];
 
 pub fn add_req() -> impl Strategy<Value = RReq> {
-    (any::<u16>(), prop::bool::weighted(0.4), prop::option::weighted(0.5, 0u8..12)).prop_map(|(menu, uninit, name)| RReq::Add { menu, uninit, name })
+    (any::<u16>(), prop::bool::weighted(0.4), prop::option::weighted(0.5, 0u8..13)).prop_map(|(menu, uninit, name)| RReq::Add { menu, uninit, name })
 }
 
 /// One variant: removals of carried-over data, additions, possibly the removal of a datum that is
